@@ -673,6 +673,9 @@ def oracle(case, res):
                         st = hit[-1][0]
                         alts = []
                         continue
+                    if any(b >= 0x80 for a, w in alts for b in a['d1'] + a['d2']):
+                        tainted.add('conf')        # a refused command with non-ASCII text may have been applied: the reference cannot tell the payload
+                        continue
                     return 'readback-126998:configuration information %s, the commanded descriptions give %s' % (bytes(payload).hex(), bytes(want).hex())
             if pgn == 126993 and ('hb', i) not in tainted:
                 if mode in (1, 2) and payload[:2] != le(st['hb'][i] // 10, 2):
